@@ -353,6 +353,11 @@ func (e *bndEngine) discharge(ob bndOb) bndResult {
 	if fail == "" {
 		return bndResult{true, fmt.Sprintf("bounds proved from %d facts", len(p.facts)), sortedKeys(p.used)}
 	}
+	if ok, why, used := e.proveAtCallSites(ob); ok {
+		return bndResult{true, why, used}
+	} else if why != "" {
+		fail += " || " + why
+	}
 	// case split on the nearest non-loop join: prove the obligation once per incoming edge
 	if j := joinAbove(ob.In.Block()); j != nil {
 		mem := e.memOf(ob.Fn)
